@@ -59,3 +59,22 @@ Example crash_example :
   crash_at d s 2 3 = mk_disk (Some (lines_bytes [header; e_ex])) [header ++ [c_nl] ++ [101;120;46]] /\
   crash_at d s 2 3 = crash_bytes d s (length (header ++ [c_nl]) + 3).
 Proof. vm_compute. split; reflexivity. Qed.
+
+(* ---- finding blocklist-entry-spelling: the maps are keyed by strings, a name has more
+   than one spelling.  The entry a person writes, "a@b.test.", and the query name the wire
+   decoder produces for the labels [a@b; test], "a\@b.test.", denote the same name
+   (Spec.name_of), yet Exists does not find it; the same through the whitelist. *)
+Definition sp_entry : str := [97;64;98;46;116;101;115;116;46].
+Definition sp_name : name := [[97;64;98]; [116;101;115;116]].
+Lemma entry_spelling_refuted_lemma :
+  name_of sp_entry = sp_name /\ name_of (present sp_name) = sp_name /\
+  present sp_name <> sp_entry /\
+  (* listed, not blocked *)
+  spec_blocked_b [name_of sp_entry] [] [] sp_name = true /\
+  bl_exists (mk_bl [sp_entry] [] []) (present sp_name) = false /\
+  (* whitelisted, blocked all the same *)
+  spec_blocked_b [] [[[116;101;115;116]]] [name_of sp_entry] sp_name = false /\
+  bl_exists (mk_bl [] [[116;101;115;116;46]] [sp_entry]) (present sp_name) = true /\
+  (* the decoder's spelling of the entry works *)
+  bl_exists (mk_bl [present sp_name] [] []) (present sp_name) = true.
+Proof. repeat split; try reflexivity. vm_compute. discriminate. Qed.
